@@ -151,7 +151,8 @@ def playback(h):
     if tests:
         p = subprocess.run(['bash', '-c', f'cargo kani playback -Z concrete-playback -- kani_concrete_playback_{h}'], cwd=d, env=env,
                            stdout=subprocess.PIPE, stderr=subprocess.STDOUT, text=True)
-        res['native_failed'] = re.findall(r'test \S*(kani_concrete_playback_\w+) \.\.\. FAILED', p.stdout)
+        res['native_failed'] = sorted(set(re.findall(r'test \S*(kani_concrete_playback_\w+) \.\.\. FAILED', p.stdout)
+                                          + re.findall(r'^\s{4}\S*?(kani_concrete_playback_\w+)\s*$', p.stdout, re.M)))
         msgs = re.findall(r"panicked at ([^\n]*)\n([^\n]*)", p.stdout)
         res['native_messages'] = [f'{a} {b}'[:300] for a, b in msgs][:4]
     return res
@@ -231,6 +232,6 @@ def replay_file(path):
     env = common.cargo_env(f'--cfg {common.GUARD}')
     p = subprocess.run(['bash', '-c', f'cargo kani playback -Z concrete-playback -- kani_concrete_playback_{d["harness"]}'], cwd=cd, env=env,
                        stdout=subprocess.PIPE, stderr=subprocess.STDOUT, text=True)
-    failed = re.findall(r'test \S*(kani_concrete_playback_\w+) \.\.\. FAILED', p.stdout)
+    failed = re.findall(r'test \S*(kani_concrete_playback_\w+) \.\.\. FAILED', p.stdout) + re.findall(r'^\s{4}\S*?(kani_concrete_playback_\w+)\s*$', p.stdout, re.M)
     print(p.stdout[-1500:])
     return 1 if failed else 0
